@@ -50,9 +50,13 @@ func regServices() []ServiceSpec {
 		}
 		return r
 	}
+	// B.m1 is also bound to GET on the path A.m2 answers POST on: two services of different backends share a leaf, each
+	// under its own verb
+	bm1 := more(body("/g/b/{s}:go"), "/g/b2/{s}")
+	bm1.AdditionalBindings = append(bm1.AdditionalBindings, httpRule("GET", "/g/a/m2"))
 	return []ServiceSpec{
 		{Pkg: "vg", Name: "A", Methods: []MethodSpec{{Name: "m1", Rule: more(body("/g/a/m1/{s}"), "/g/a/alt/{s}")}, {Name: "m2", Rule: more(body("/g/a/m2"), "/g/a2/m2", "/g/a3/{s}/m2")}}},
-		{Pkg: "vg", Name: "B", Methods: []MethodSpec{{Name: "m1", Rule: more(body("/g/b/{s}:go"), "/g/b2/{s}")}, {Name: "m2", Rule: body("/g/a/m1/{s}/b")}}},
+		{Pkg: "vg", Name: "B", Methods: []MethodSpec{{Name: "m1", Rule: bm1}, {Name: "m2", Rule: body("/g/a/m1/{s}/b")}}},
 	}
 }
 
@@ -161,7 +165,7 @@ var regMethods = []struct {
 	extras           []string // request paths of the additional bindings
 }{
 	{"A.m1", "/vg.A/m1", "/g/a/m1/x", []string{"/g/a/alt/x"}}, {"A.m2", "/vg.A/m2", "/g/a/m2", []string{"/g/a2/m2", "/g/a3/x/m2"}},
-	{"B.m1", "/vg.B/m1", "/g/b/x:go", []string{"/g/b2/x"}},
+	{"B.m1", "/vg.B/m1", "/g/b/x:go", []string{"/g/b2/x", "GET /g/a/m2"}},
 	{"B.m2", "/vg.B/m2", "/g/a/m1/x/b", nil},
 }
 
@@ -198,9 +202,15 @@ func probeOnceQ(mux *larking.Mux, proto_, full, path, rawQuery string) (out Prob
 		if proto_ == "implicit" {
 			p = full
 		}
+		if strings.HasPrefix(p, "GET ") { // a binding under another verb (no body)
+			p = p[4:]
+			req = httptest.NewRequest("GET", "http://verif.test/", nil)
+		}
 		req.URL = &url.URL{Scheme: "http", Host: "verif.test", Path: p, RawQuery: rawQuery}
 		req.Header.Set("Content-Type", "application/json")
-		req.ContentLength = 2
+		if req.Method == "POST" {
+			req.ContentLength = 2
+		}
 		mux.ServeHTTP(w, req)
 		switch w.Code {
 		case 200:
